@@ -14,6 +14,7 @@ import (
 
 	"verif/engine"
 	"verif/ref"
+	"verif/uni"
 )
 
 // Item 3 — Parameters <-> ParametersLiteral <-> JSON <-> binary, and derived quantities against their definitions.
@@ -201,6 +202,51 @@ func codecOfDerived(c *engine.Chooser, tag string, p rlwe.Parameters) {
 			if d.RingType() != ring.Standard || d.LogN() != p.LogN()+1 || d.RingQ().N() != 2*p.N() {
 				c.Fail("C19/derived/StandardParameters", "%s: ring type %v LogN %d ring degree %d", tag, d.RingType(), d.LogN(), d.RingQ().N())
 			}
+		}
+		// a derived object is a parameter set like any other: BOTH rings are the rings of its own degree, ring type and
+		// root order, its getters agree with them, and it equals the set built from its own literal (its twin)
+		for _, rr := range []struct {
+			n string
+			r *ring.Ring
+			m []uint64
+		}{{"RingQ", d.RingQ(), d.Q()}, {"RingP", d.RingP(), d.P()}} {
+			if rr.r == nil {
+				if len(rr.m) != 0 {
+					c.Fail("C19/derived/"+how+"/ring-incoherent", "%s: %s() is nil but the chain has %d moduli", tag, rr.n, len(rr.m))
+				}
+				continue
+			}
+			if rr.r.N() != d.N() || rr.r.Type() != d.RingType() || int(rr.r.NthRoot()) != d.NthRoot() || fmt.Sprint(rr.r.ModuliChain()) != fmt.Sprint(rr.m) {
+				c.Fail("C19/derived/"+how+"/ring-incoherent", "%s: %s(): degree %d type %v root order %d moduli %v; parameters: N %d type %v root order %d moduli %v",
+					tag, rr.n, rr.r.N(), rr.r.Type(), rr.r.NthRoot(), rr.r.ModuliChain(), d.N(), d.RingType(), d.NthRoot(), rr.m)
+			}
+		}
+		if s := cohRLWE(d); s != "" {
+			c.Fail("C19/derived/"+how+"/getters-incoherent", "%s: %s", tag, s)
+		}
+		if twin, err := rlwe.NewParametersFromLiteral(d.ParametersLiteral()); err != nil {
+			c.Fail("C19/derived/"+how+"/own-literal-refused", "%s: %v", tag, err)
+		} else if !twin.Equal(&d) || fpRLWE(twin) != fpRLWE(d) {
+			c.Fail("C19/derived/"+how+"/differs-from-the-set-built-from-its-literal", "%s", tag)
+		} else if twin.RingP() != nil && d.RingP() != nil && (twin.RingP().N() != d.RingP().N() || twin.RingP().Type() != d.RingP().Type()) {
+			c.Fail("C19/derived/"+how+"/ring-incoherent", "%s: RingP() differs from the literal-built twin's", tag)
+		}
+		// and it works: a public-key encryption of zero (which runs through RingP when there is one) decrypts to small noise
+		if err, pan := uni.Try(func() error {
+			kg := rlwe.NewKeyGenerator(d)
+			sk, pk := kg.GenKeyPairNew()
+			ct := rlwe.NewEncryptor(d, pk).EncryptZeroNew(d.MaxLevel())
+			pt := rlwe.NewDecryptor(d, sk).DecryptNew(ct)
+			rq := d.RingQ().AtLevel(ct.Level())
+			if pt.IsNTT {
+				rq.INTT(pt.Value, pt.Value)
+			}
+			if lb := rq.Log2OfStandardDeviation(pt.Value); lb > 20 {
+				return fmt.Errorf("fresh public-key encryption of zero decrypts with noise 2^%.1f", lb)
+			}
+			return nil
+		}); err != nil || pan != nil {
+			c.Fail("C19/derived/"+how+"/unusable", "%s: err=%v panic=%v", tag, err, pan)
 		}
 	}
 }
